@@ -63,6 +63,8 @@ RAW_EXPECT = {
     "fb-omitted-input-reset": ("C02", r"r1=Int:200 r2=\w+:5 "),
     "fb-input-default-not-applied": ("C02", r"r0=Int:0 "),
     "fb-call-without-arguments": ("C01", r"^InvalidArgumentCount "),
+    "struct-field-initialiser-ignored": ("C02", r" d=DInt:0 "),
+    "struct-field-case": ("C01", r"^UndefinedField "),
 }
 
 
